@@ -25,6 +25,9 @@ var c18bridgeOps = []string{
 	"Tick", "Process",
 }
 
+// alphabet of the late-reader variant (direction 0 only)
+var c18lateOps = []string{"W0:1", "W0:3", "Tick", "StartReader(0)", "Drop(0,0,1)", "Reorder(0)", "ReorderNext(0,2)", "DropNext(0,1)", "Process"}
+
 type brModel struct {
 	q       [2][]string
 	dropN   [2]int
@@ -41,8 +44,14 @@ func cut(m string, n int) string {
 	return m
 }
 
-func c18bridge(steps, bound, slice int) *explore.Scenario {
+func c18bridge(steps, bound, slice int, late ...bool) *explore.Scenario {
 	sc := &explore.Scenario{Name: fmt.Sprintf("bridge %d steps slice=%d", steps, slice), Bound: bound}
+	// lateReader: nobody reads at endpoint 1 until the script says so; a Tick without a reader must leave the
+	// message in the queue (where Drop / Reorder still see it)
+	lateReader := len(late) > 0 && late[0]
+	if lateReader {
+		sc.Name += ", the reader of direction 0 starts late"
+	}
 	sc.Cfg.Horizon = 10 * time.Second
 	sc.Make = func() (func(), func(*zzvsched.Exec) (string, *explore.Violation)) {
 		var script []string
@@ -57,8 +66,8 @@ func c18bridge(steps, bound, slice int) *explore.Scenario {
 				Read([]byte) (int, error)
 				Write([]byte) (int, error)
 			}{br.GetConn0(), br.GetConn1()}
-			for d := 0; d < 2; d++ {
-				d := d
+			readerOn := [2]bool{!lateReader, true}
+			startReader := func(d int) {
 				zzvsched.GoNamed(fmt.Sprintf("reader-of-dir%d", d), func() {
 					for {
 						// a sub-slice with spare capacity: nothing beyond len may be used
@@ -84,11 +93,27 @@ func c18bridge(steps, bound, slice int) *explore.Scenario {
 					}
 				})
 			}
+			for d := 0; d < 2; d++ {
+				if readerOn[d] {
+					startReader(d)
+				}
+			}
 			zzvsched.WaitIdle()
 			seq := 0
 			syncTick := func(before [2]int) {
 				for d := 0; d < 2; d++ {
 					delivered := before[d] - br.Len(d)
+					if lateReader {
+						// independent of the implementation: one message per Tick, and only to a waiting reader
+						want := 0
+						if readerOn[d] && len(m.q[d]) > 0 {
+							want = 1
+						}
+						if delivered != want && viol == nil {
+							viol = &explore.Violation{Sig: "C18 bridge tick-count", Msg: fmt.Sprintf("script %v: Tick took %d message(s) out of the queue of direction %d; with%s reader waiting it must take %d", script, delivered, d, map[bool]string{true: " a", false: "out a"}[readerOn[d]], want)}
+						}
+						delivered = want
+					}
 					for k := 0; k < delivered && len(m.q[d]) > 0; k++ {
 						m.deliver[d] = append(m.deliver[d], m.q[d][0])
 						m.q[d] = m.q[d][1:]
@@ -96,9 +121,21 @@ func c18bridge(steps, bound, slice int) *explore.Scenario {
 				}
 			}
 			for i := 0; i < steps; i++ {
-				op := c18bridgeOps[zzvsched.Choose(len(c18bridgeOps))]
+				ops := c18bridgeOps
+				if lateReader {
+					ops = c18lateOps
+				}
+				op := ops[zzvsched.Choose(len(ops))]
 				var d, a, b int
 				switch {
+				case op == "StartReader(0)":
+					if readerOn[0] {
+						script = append(script, "skip")
+						continue
+					}
+					script = append(script, op)
+					readerOn[0] = true
+					startReader(0)
 				case strings.HasPrefix(op, "W"):
 					fmt.Sscanf(op, "W%d:%d", &d, &a)
 					seq++
@@ -202,6 +239,10 @@ func c18bridge(steps, bound, slice int) *explore.Scenario {
 					br.Tick()
 					syncTick(before)
 				case op == "Process":
+					if !readerOn[0] && len(m.q[0]) > 0 {
+						script = append(script, "skip")
+						continue // would tick for ever: nobody takes the messages of direction 0
+					}
 					script = append(script, op)
 					br.Process()
 					for d := 0; d < 2; d++ {
@@ -210,6 +251,11 @@ func c18bridge(steps, bound, slice int) *explore.Scenario {
 					}
 				}
 				zzvsched.WaitIdle() // readers consume and park again
+			}
+			if !readerOn[0] {
+				readerOn[0] = true
+				startReader(0)
+				zzvsched.WaitIdle()
 			}
 			br.Process()
 			for d := 0; d < 2; d++ {
@@ -521,11 +567,11 @@ func init() {
 	register(&Check{ID: "C18", YieldOnRelease: true,
 		Scenarios: func(tier string) []*explore.Scenario {
 			if tier == "quick" {
-				return []*explore.Scenario{c18bridge(4, 0, 8), c18bridge(3, 0, 2), c18bridge(3, 0, 0), c18bridge(2, 1, 8), c18dpipe(4), c18dpipeBlocked(true, 1), c18dpipeBlocked(false, 1)}
+				return []*explore.Scenario{c18bridge(4, 0, 8), c18bridge(3, 0, 2), c18bridge(3, 0, 0), c18bridge(2, 1, 8), c18bridge(5, 0, 8, true), c18dpipe(4), c18dpipeBlocked(true, 1), c18dpipeBlocked(false, 1)}
 			}
-			return []*explore.Scenario{c18bridge(5, 0, 8), c18bridge(4, 0, 2), c18bridge(3, 0, 0), c18bridge(3, 1, 8), c18dpipe(6), c18dpipeBlocked(true, 2), c18dpipeBlocked(false, 2)}
+			return []*explore.Scenario{c18bridge(5, 0, 8), c18bridge(4, 0, 2), c18bridge(3, 0, 0), c18bridge(3, 1, 8), c18bridge(6, 0, 8, true), c18dpipe(6), c18dpipeBlocked(true, 2), c18dpipeBlocked(false, 2)}
 		},
-		Rule: "Bridge: every script of the stated length over {writes of 0/1/3-byte messages in both directions, DropNextNWrites, ReorderNextNWrites (1,2,3; also repeated), Drop, Reorder, Filter (set and cleared), Tick, Process} with parked reader threads (slices of 0, 2, 8 bytes), compared per endpoint with a script interpreter; dpipe: every script over {writes both ways incl. empty, reads with short/long slices, Close of either end, filling the 1000-message buffer}; plus: buffer full, one more Write blocked in its own thread, then the writing end is closed / the peer reads one",
+		Rule: "Bridge: every script of the stated length over {writes of 0/1/3-byte messages in both directions, DropNextNWrites, ReorderNextNWrites (1,2,3; also repeated), Drop, Reorder, Filter (set and cleared), Tick, Process} with parked reader threads (one variant: the reader of one direction starts late, and a Tick without a waiting reader must leave the queue untouched) (slices of 0, 2, 8 bytes), compared per endpoint with a script interpreter; dpipe: every script over {writes both ways incl. empty, reads with short/long slices, Close of either end, filling the 1000-message buffer}; plus: buffer full, one more Write blocked in its own thread, then the writing end is closed / the peer reads one",
 		Assumptions: []string{"precedence between a reorder window and a drop window or filter, and Drop with an offset beyond the queue, are not specified by the property: such steps are skipped; a drop window counts calls of Write (a write is delivered iff it is outside the window and passes the filter); ReorderNextNWrites re-armed while a window is partly collected: messages are compared as a multiset for that direction (nothing lost, duplicated or invented; order within the merged window unspecified)",
 			"a one-message reordering delivers that message (reversal of one element)"}})
 }
